@@ -70,4 +70,42 @@ def finish (s : Slots) : List Act → Slots × List Bool
   | .release :: tl => finish { s with inflight := s.inflight - 1 } tl
   | .emit :: tl => ((finish s tl).1, s.admits :: (finish s tl).2)
 
+/-! ## a listener that uses the service: what the call path may hold while it emits
+
+A listener may itself send a request through the service (a diagnostic probe, a warm-up call) and poll it on the
+spot. That request runs the same call path, on the same thread, before `emit` returns. If the path emits an event
+while it holds a lock that the path also takes — a non-reentrant `std::sync::Mutex` — the listener's request blocks
+on that lock for ever: `emit` never returns, the emitting call never completes, and the listeners registered after
+the probing one are never told the event. `walk` runs a call path with (`re = true`) or without such a listener. -/
+
+inductive PStep
+  | lock       -- take the layer's non-reentrant lock (the chaos layer's RNG, a cache's store)
+  | unlock     -- release it
+  | emit       -- run the listeners of an event
+deriving DecidableEq, Repr
+
+structure PRun where
+  locked  : Bool := false
+  emitted : Nat := 0        -- events that every registered listener has been told
+  hung    : Bool := false   -- the call is stuck and never returns
+deriving DecidableEq, Repr
+
+/-- run a call path; `re`: one of the listeners sends a request through the same service from inside the listener
+(that request needs the path's lock; it is guarded against recursion and otherwise leaves nothing behind) -/
+def walk (re : Bool) (s : PRun) : List PStep → PRun
+  | [] => s
+  | st :: tl =>
+    if s.hung then s else
+    match st with
+    | .lock => if s.locked then { s with hung := true } else walk re { s with locked := true } tl
+    | .unlock => walk re { s with locked := false } tl
+    | .emit => if re && s.locked then { s with hung := true } else walk re { s with emitted := s.emitted + 1 } tl
+
+/-- every `emit` of the path happens with the lock free -/
+def emitsUnlocked (locked : Bool) : List PStep → Bool
+  | [] => true
+  | .lock :: tl => emitsUnlocked true tl
+  | .unlock :: tl => emitsUnlocked false tl
+  | .emit :: tl => !locked && emitsUnlocked locked tl
+
 end TR.Listeners
